@@ -4,10 +4,13 @@ import (
 	"bytes"
 	"fmt"
 	"math/rand"
+	"sort"
 	"strings"
+	"sync"
 	"time"
 
 	"github.com/zmap/zlint/v3/lint"
+	"github.com/zmap/zlint/v3/util"
 
 	"verif/corpus"
 	"verif/der"
@@ -161,6 +164,34 @@ func c20RandName(rng *rand.Rand) *der.Node {
 	return gen.NameRDNs(rdns...)
 }
 
+var (
+	c20RemovedOnce sync.Once
+	c20Removed     []string
+)
+
+// c20RemovedTLDs: table entries with a removal date, most recently removed first (at most 60)
+func c20RemovedTLDs() []string {
+	c20RemovedOnce.Do(func() {
+		type e struct{ tld, when string }
+		var es []e
+		for k, p := range util.VerifTLDMap() {
+			if p.RemovalDate != "" {
+				es = append(es, e{k, p.RemovalDate})
+			}
+		}
+		sort.Slice(es, func(i, j int) bool {
+			if es[i].when != es[j].when {
+				return es[i].when > es[j].when
+			}
+			return es[i].tld < es[j].tld
+		})
+		for i := 0; i < len(es) && i < 60; i++ {
+			c20Removed = append(c20Removed, es[i].tld)
+		}
+	})
+	return c20Removed
+}
+
 var c20AIAHosts = []string{"http://ocsp.example.com", "http://ca.example.com/ca.crt", "http://server.local/ocsp", "http://intranet/ca.crt", "http://10.1.2.3/ocsp", "http://[2001:db8::1]/x",
 	"http://ocsp.example.invalidtldzz/", "ldap://ldap.example.com/cn=ca", "http://[::1", "http://%zz/", "https://ocsp.example.org:8080/a", "http://localhost/ocsp", "http://ocsp.example.com./", "", "ocsp.example.com", "http://user@corp/"}
 
@@ -267,8 +298,20 @@ func init() {
 				}
 				var ads []*der.Node
 				var used []string
+				// every third certificate is issued at another date and names hosts under TLDs that have since been
+				// REMOVED from the root zone (taken from the live table): both copies must judge such a host alike
+				removed := c20RemovedTLDs()
+				viaRemoved := rng.Intn(3) == 0 && len(removed) > 0
+				if viaRemoved {
+					d := []time.Time{gen.D(2023, 10, 1), gen.D(2024, 3, 1), gen.D(2025, 1, 1), gen.D(2022, 1, 1)}[rng.Intn(4)]
+					spec.NotBefore, spec.NotAfter = d, d.Add(90*24*time.Hour-time.Second)
+				}
 				for k := 0; k < 1+rng.Intn(3); k++ {
 					u := c20AIAHosts[rng.Intn(len(c20AIAHosts))]
+					if viaRemoved {
+						u = "http://ocsp.example." + removed[rng.Intn(len(removed))] + "/"
+						c.R.Count("aia_hosts_under_removed_tlds", 1)
+					}
 					m := gen.OIDAdOCSP
 					if rng.Intn(2) == 0 {
 						m = gen.OIDAdIssuers
